@@ -173,6 +173,45 @@ theorem translated_shutdown_after_wait (σ : Env) (hs : σ "select#0" = 1) :
 theorem translated_shutDownNode (σ : Env) :
     (obs Trans.exShutDownNode σ).calls = [("node.NodeProcessor.Shutdown", [])] ∧ (obs Trans.exShutDownNode σ).stuck = false := by
   by_cases h : σ "node.NodeProcessor.Shutdown#0" = 0 <;> minigo_simp [Trans.exShutDownNode, h]
+
+section ModelLink
+open Firebolt.Exec
+/-- the action the operational model lets worker `w` take next during the close cascade, by its program counter -/
+def cascadeNext (w : Nat) : Pc → Option Act
+  | .c1 => some (.wgDone w)
+  | .c2 => some (.wgWait w)
+  | .c3 => some (.onceEnter w)
+  | .hSh => some (.shutEnter w)
+  | .hShIn => some (.shutExit w)
+  | .hClose => some (.closeAll w)
+  | _ => none
+
+/-- the call of the Go code each cascade action of the model stands for (`shutExit` is the return of `shutDownNode`; `closeAll`
+is the loop over the children followed by the handler's close) -/
+def cascadeCallOf : Act → List String
+  | .wgDone _ => ["node.WaitGroup.Done"]
+  | .wgWait _ => ["node.WaitGroup.Wait"]
+  | .onceEnter _ => ["node.ShutdownOnce.Do"]
+  | .shutEnter _ => ["shutDownNode"]
+  | .closeAll _ => ["foreach node.Children: close", "close"]
+  | _ => []
+
+/-- in the model a worker in the cascade can only take the action its program counter prescribes: the cascade is a straight line -/
+theorem model_cascade_is_straight_line (c : Cfg) (s s' : St) (w : Nat) (a : Act)
+    (ha : a = .wgDone w ∨ a = .wgWait w ∨ a = .onceEnter w ∨ a = .shutEnter w ∨ a = .shutExit w ∨ a = .closeAll w)
+    (hs : step c s a = some s') : cascadeNext w (s.pc w) = some a := by
+  rcases ha with h | h | h | h | h | h <;> subst h <;> simp only [step] at hs <;>
+    (split at hs <;> try contradiction) <;> (split at hs <;> try contradiction) <;> simp_all [cascadeNext]
+
+/-- **the model's cascade and the code's cascade are the same sequence**: the calls the translated worker loop makes at the end of
+its input, when sync.Once admits it and the node has a handler, are — in order — the calls the model's straight line
+`wgDone, wgWait, onceEnter, shutEnter, shutExit, closeAll` stands for -/
+theorem model_cascade_matches_code (σ : Env) (w : Nat) (ho : σ "node.ShutdownOnce.Do#0" ≠ 0) (hh : σ "node.ErrorHandler" ≠ 0) :
+    (TransExpected.cascadeCalls σ).map (·.1) =
+      ([Act.wgDone w, .wgWait w, .onceEnter w, .shutEnter w, .shutExit w, .closeAll w].flatMap cascadeCallOf) := by
+  simp [TransExpected.cascadeCalls, cascadeCallOf, ho, hh]
+end ModelLink
+
 end Translated
 
 theorem closure_unchanged : GeneratedClo.C03 = ExpectedClo.C03 := by rfl
